@@ -222,7 +222,7 @@ def prove(prop):
     return res
 
 
-def run_lines(cmd, lines, timeout=600, env=None):
+def run_lines(cmd, lines, timeout=3600, env=None):
     """Feed request lines to a line-protocol process; return its output lines."""
     data = ("\n".join(lines) + "\n").encode()
     p = subprocess.run(cmd, input=data, stdout=subprocess.PIPE, stderr=subprocess.PIPE, timeout=timeout, env=env)
